@@ -12,6 +12,7 @@ package main
 import (
 	"bufio"
 	"bytes"
+	"context"
 	"crypto/sha256"
 	"encoding/hex"
 	"encoding/json"
@@ -145,8 +146,15 @@ func env() []string {
 	return e
 }
 
+// cmdTimeout bounds every child process: a worker stuck in a real blocking call (something the rewriter
+// missed) must end as harness trouble (exit 2), never hang the check or print a VIOLATION.
+var cmdTimeout = 45 * time.Minute
+
 func runCmd(dir string, extraEnv []string, name string, args ...string) (string, error) {
-	cmd := exec.Command(name, args...)
+	ctx, cancel := context.WithTimeout(context.Background(), cmdTimeout)
+	defer cancel()
+	cmd := exec.CommandContext(ctx, name, args...)
+	cmd.WaitDelay = 5 * time.Second
 	cmd.Dir = dir
 	cmd.Env = append(env(), extraEnv...)
 	var out bytes.Buffer
@@ -339,7 +347,10 @@ func replayPath(worker, prop, inPath string, verbose bool, id int) (*runRec, err
 	}
 	raceLog := filepath.Join(buildDir(), "race", fmt.Sprintf("%s-r%d", prop, id))
 	os.MkdirAll(filepath.Dir(raceLog), 0o755)
-	cmd := exec.Command(worker, args...)
+	ctx, cancel := context.WithTimeout(context.Background(), 5*time.Minute)
+	defer cancel()
+	cmd := exec.CommandContext(ctx, worker, args...)
+	cmd.WaitDelay = 5 * time.Second
 	cmd.Dir = root
 	cmd.Env = append(env(), "GORACE=log_path="+raceLog+" halt_on_error=0 exitcode=0 history_size=2", "GOMEMLIMIT=3GiB")
 	var ob bytes.Buffer
@@ -373,10 +384,12 @@ func same(r *runRec, class, key string) bool {
 }
 
 // reproduces runs a candidate (several attempts for data races, whose detection depends on TSan's shadow state).
+var raceAttempts = 5
+
 func reproduces(worker, prop string, rf *replayFile, class, key string) (*runRec, bool) {
 	attempts := 1
 	if class == "data_race" {
-		attempts = 3
+		attempts = raceAttempts
 	}
 	for i := 0; i < attempts; i++ {
 		r, err := replayOnce(worker, prop, rf, false)
@@ -623,6 +636,8 @@ func main() {
 			budget = v
 		}
 	}
+	// a worker gets its wall budget, then a grace period, then it is killed (exit 2)
+	cmdTimeout = time.Duration(budget*1.5)*time.Second + 5*time.Minute
 
 	// ---- determinism self-test: the same indexes in fresh processes at other GOMAXPROCS
 	detN := int64(32)
@@ -834,6 +849,7 @@ func main() {
 		return order[i] < order[j]
 	})
 	exit := 0
+	var unconfirmed []string
 	knownSeen := 0
 	var vioList []map[string]any
 	os.MkdirAll(filepath.Join(root, "replays"), 0o755)
@@ -861,8 +877,13 @@ func main() {
 		r, ok := reproduces(worker, prop, rf, g.class, g.key)
 		if !ok && g.class == "data_race" {
 			// TSan's report depends on shadow-memory state; try other runs of the group
+			others := 0
 			for _, v := range vios {
+				if others >= 6 {
+					break
+				}
 				if v.Violation.Class == g.class && v.Violation.Key == g.key && v != g.first {
+					others++
 					rf2 := *rf
 					rf2.Seed, rf2.Index, rf2.Choices, rf2.Hash, rf2.Scenario, rf2.Forced, rf2.Params = v.Seed, v.Index, v.Choices, v.Hash, v.Scenario, v.forced, parseParams(v.params)
 					if r, ok = reproduces(worker, prop, &rf2, g.class, g.key); ok {
@@ -872,6 +893,16 @@ func main() {
 				}
 			}
 		}
+		if !ok && g.class == "data_race" {
+			// The race detector's verdict depends on its shadow-memory state (and on sync.Pool's randomised edges
+			// inside fmt): a report that cannot be reproduced from its recorded schedule in fresh processes is not
+			// printed as a VIOLATION (its replay file would not replay). It is listed; if nothing else is found the
+			// check ends as harness trouble, never as "held".
+			fmt.Printf("note: race report %s (seen in %d runs) did not recur when its recorded schedule was re-executed in fresh processes; not reported as a violation\n", g.key, g.count)
+			unconfirmed = append(unconfirmed, g.key)
+			reported--
+			continue
+		}
 		if !ok {
 			trouble("violation %s/%s of run %d did not reproduce from its recorded choices in a fresh process (nondeterminism in the harness?)\n%s", g.class, g.key, g.first.Index, g.first.Violation.Msg)
 		}
@@ -880,7 +911,9 @@ func main() {
 		var best *replayFile
 		var tried int
 		if g.class == "data_race" {
-			best, tried = minimise(worker, prop, rf, time.Now().Add(minDeadlinePer), 60)
+			raceAttempts = 2
+			best, tried = minimise(worker, prop, rf, time.Now().Add(45*time.Second), 40)
+			raceAttempts = 5
 		} else {
 			best, tried = shrinkInProcess(worker, prop, rf)
 		}
@@ -979,6 +1012,10 @@ func main() {
 	raw, _ := json.MarshalIndent(ev, "", " ")
 	if err := os.WriteFile(filepath.Join(root, "evidence", prop+".json"), raw, 0o644); err != nil {
 		trouble("%v", err)
+	}
+	if exit == 0 && len(unconfirmed) > 0 {
+		fmt.Printf("HARNESS-TROUBLE: %d race report(s) could not be confirmed by replay and nothing else was found: %v\n", len(unconfirmed), unconfirmed)
+		exit = 2
 	}
 	fmt.Printf("RESULT property=%s runs=%d nontrivial=%d distinct=%d violations=%d known=%d wall=%.1fs exit=%d\n", prop, agg.Runs, agg.NonTrivial, len(hashes), len(vioList), knownSeen, wall, exit)
 	os.Exit(exit)
